@@ -1067,8 +1067,10 @@ theorem pay_runFrame' (p : Prog) (hh : Hist) (s : St) (f : Frame) (hpre : PayPre
     · exact inv_dl hpre (DL.refl s) (by hq)
     · split
       · rename_i e _ _ _
-        have h := dstep_despawn1 s e hold
-        exact inv_dl hpre (DL.push h.dl _) (fun w hw => by simp [qW, St.push, frameW, frameCmds, h.wq, h.stack])
+        split
+        · have h := dstep_despawn1 s e hold
+          exact inv_dl hpre (DL.push h.dl _) (fun w hw => by simp [qW, St.push, frameW, frameCmds, h.wq, h.stack])
+        · exact inv_dl hpre (DL.push (DL.refl s) _) (by hq)
       · split
         · exact inv_dl hpre (DL.push (by dleq) _) (by hq)
         · exact inv_dl hpre (DL.push (DL.refl s) _) (by hq)
